@@ -324,6 +324,8 @@ fn compress_with(alg: &str, inner: &[u8]) -> Option<Vec<u8>> {
 }
 
 fn run_traffic(plan: &Value, rec: &mut Rec) {
+    // consumers of this check call a reader again after it returned an error
+    seams::set_poke_after_error(true);
     let kind = jstr(plan, "kind");
     let layer = jstr(plan, "layer");
     let cfg = &plan["cfg"];
@@ -492,6 +494,8 @@ fn gen_pkesk(ctx: &GenCtx) -> Vec<Value> {
 }
 
 fn run_pkesk(plan: &Value, rec: &mut Rec) {
+    // consumers of this check call a reader again after it returned an error
+    seams::set_poke_after_error(true);
     let k = keys::get(jstr(plan, "key"));
     let v6 = jbool(plan, "v6");
     let len = jusize(plan, "len");
@@ -601,6 +605,8 @@ fn ecdh_forgery_inputs(params: &[u8]) -> Option<(Vec<u8>, Vec<u8>, Vec<u8>, u8, 
 }
 
 fn run_ecdh(plan: &Value, rec: &mut Rec) {
+    // consumers of this check call a reader again after it returned an error
+    seams::set_poke_after_error(true);
     let k = keys::get(jstr(plan, "key"));
     let sub = &k.public.public_subkeys[0];
     let padded_len = jusize(plan, "padded_len");
@@ -744,6 +750,8 @@ fn gen_octets(ctx: &GenCtx) -> Vec<Value> {
 }
 
 fn run_octets(plan: &Value, rec: &mut Rec) {
+    // consumers of this check call a reader again after it returned an error
+    seams::set_poke_after_error(true);
     let what = jstr(plan, "what");
     let off = jusize(plan, "off");
     let vals: Vec<usize> = match plan.get("only") {
